@@ -557,6 +557,10 @@ class DBObject:
     def get_id(self) -> str:
         raise NotImplementedError()
 
+    def get_id_in_literal(self) -> str:
+        """get_id() for splicing into a single-quoted SQL string."""
+        return self.get_id().replace("'", "''")
+
 
 class InheritableDBObject(DBObject):
     def __init__(
